@@ -7,6 +7,7 @@ import (
 	"fmt"
 	"io"
 	"log"
+	"math/rand"
 	"net"
 	"strings"
 	"time"
@@ -352,6 +353,86 @@ func runC20OnlyPushPull(run *Run, seed int64, withPeer bool) (out []*c01Result) 
 	}
 	if d := V.EP.DialsClosed.Load() - dialsAtShutdown; d > 0 {
 		fail("traffic-after-shutdown", "%d dial attempts on the closed transport after Shutdown had returned (push/pull keeps running)", d)
+	}
+	return
+}
+
+// runC20DeafPeer: public calls that open a stream towards a member that completes the handshake and never reads
+// (bounded socket buffers, a payload larger than they are). TCPTimeout is documented as the timeout "for stream
+// read and write operations": the call must come back with an error about that long after it was made, Shutdown
+// must then work and nothing may stay behind.
+func runC20DeafPeer(run *Run, seed int64, call string) (out []*c01Result) {
+	fail := func(key, f string, a ...any) {
+		out = append(out, &c01Result{"C20/" + key, fmt.Sprintf(f, a...)})
+	}
+	const tcpTimeout = 2 * time.Second
+	rig, err := NewRig(RigOpts{Seed: seed, Spec: NodeSpec{Name: "V", IP: "10.9.9.9", Mutate: func(cf *memberlist.Config) {
+		cf.ProbeInterval = noProbe
+		cf.PushPullInterval = 0
+		cf.GossipInterval = 0
+		cf.TCPTimeout = tcpTimeout
+	}}})
+	if err != nil {
+		fail("harness/create", "%v", err)
+		return
+	}
+	defer rig.Close()
+	rig.C.Net.StreamWindow = 64 << 10
+	big := make([]byte, 1<<20)
+	rand.New(rand.NewSource(seed)).Read(big)
+	h := rig.AddPeer("h", "10.9.4.4", 7946) // its connections queue up unread
+	rig.Introduce(h, 1)
+	Settle(time.Millisecond)
+	m := rig.V.ML()
+	var hn *memberlist.Node
+	for _, n := range m.Members() {
+		if n.Name == "h" {
+			hn = n
+		}
+	}
+	if hn == nil {
+		fail("harness/no-peer", "the deaf peer was not admitted")
+		return
+	}
+	t0 := time.Now()
+	done := make(chan error, 1)
+	switch call {
+	case "SendReliable":
+		go func() { done <- m.SendReliable(hn, big) }()
+	case "Join":
+		rig.V.Del.mu.Lock()
+		rig.V.Del.State = big
+		rig.V.Del.mu.Unlock()
+		go func() { _, err := m.Join([]string{h.EP.Addr}); done <- err }()
+	}
+	run.Cell("deaf-peer", call)
+	select {
+	case err := <-done:
+		if err == nil {
+			fail("deaf-peer/no-error/"+call, "%s of %d bytes to a peer that never read them returned nil", call, len(big))
+		}
+		if d := time.Since(t0); d > tcpTimeout+time.Second {
+			fail("deaf-peer/late/"+call, "%s returned %v after it was called, TCPTimeout is %v", call, d, tcpTimeout)
+		}
+	case <-time.After(15 * tcpTimeout):
+		fail("blocked/"+call+"@deaf-peer", "%s towards a member that accepts the connection and never reads (payload %d bytes, socket buffers %d bytes) had not returned %v after it was called; TCPTimeout, documented as the timeout for stream write operations, is %v", call, len(big), rig.C.Net.StreamWindow, time.Since(t0), tcpTimeout)
+	}
+	if err := m.Shutdown(); err != nil {
+		fail("shutdown-error", "%v", err)
+	}
+	rig.V.Stopped = true
+	Settle(3 * tcpTimeout)
+	if len(out) > 0 {
+		// release whatever is stuck so that the bubble can end
+		rig.C.Net.CloseAll()
+		Settle(time.Second)
+		return
+	}
+	for _, fp := range rig.Peers {
+		fp.Stop()
+	}
+	if g := MemberlistGoroutines(); len(g) > 0 {
+		fail("goroutine-after-shutdown", "%d goroutines with memberlist frames are alive 3 x TCPTimeout after Shutdown that followed %s to a deaf peer: %.300s", len(g), call, g[0])
 	}
 	return
 }
